@@ -142,6 +142,21 @@ PROPS["C20"] = dict(
     thorough=dict(shards=16, checks=5000, timeout_s=3600),
 )
 
+PROPS["C11"] = dict(
+    pkg="props/c11", level="fault_enumeration", engine="E-pos", design_ref="§4 C11",
+    technique="PBT-generated merge inputs (rapid) x exhaustive single-fault injection at every iterator and writer position (+ sampled double faults)",
+    rule=("evaluation = one run of Merge / MergeCompact(latest-wins) / MergeCompact(skip-tombstones) over 1..5 generated overlapping inputs with one injected fault: input i fails at "
+          "its j-th Next (every i, every j incl. the call that would return Done; one-shot and sticky) or the writer fails at its p-th WriteNext (every p; one-shot and sticky), plus up to 6 "
+          "generated double faults per case; oracle: fault fired => a non-nil error (or a panic); no fault fired => nil; non-trivial = the fault fired before the last output record was written; "
+          "distinct = (case hash, fault position)"),
+    level_text="Every single fault position of every generated merge is enumerated; the oracle is exact ('fault fired implies error').",
+    level_note="interface leg only in this revision: faults are injected through the iterator and writer interfaces the merger accepts",
+    assumptions=COMMON_ASSUME,
+    require_labels=["kind=merge", "kind=compact-latest", "kind=compact-skip"],
+    quick=dict(shards=16, checks=60),
+    thorough=dict(shards=16, checks=1500, timeout_s=3600),
+)
+
 NOT_APPLICABLE = {}
 
 
